@@ -1,4 +1,4 @@
-import GixModel.Lemmas.C53Rep
+import GixModel.Lemmas.C53File
 /-
 C53 — Mailmap resolution agrees with git.  PROPERTY THEOREMS ONLY.
 
@@ -8,7 +8,7 @@ Entries are `gix_mailmap::Entry` values = git's `add_mapping` arguments after it
 -/
 namespace GixModel.Props.C53
 open GixModel GixModel.C53
-open GixModel.Spec.C53 (Entry build mapUser mapUserNormalized spellingExact)
+open GixModel.Spec.C53 (Entry build mapUser mapUserNormalized spellingExact checkMailmap)
 
 /-- The exact behaviour, for ALL entry lists whose keys (old emails, old names) are valid UTF-8
 and ALL identities (any bytes): `Snapshot::new` does not panic and `Snapshot::resolve` returns
@@ -67,6 +67,76 @@ theorem differs_non_utf8_case :
 /-- With such keys the comparator is not even an order: `a < B`, `B < Z\xff`, `Z\xff < a`. -/
 theorem cmpRef_not_an_order :
     cmpRef [97] [66] = .lt ∧ cmpRef [66] [90, 255] = .lt ∧ cmpRef [90, 255] [97] = .lt := by
+  decide
+
+/-! ### parsing -/
+
+/-- `parse_eq_git`: one physical line, read by gitoxide as the `bstr` line `l` and by git as the
+`fgets` buffer `l ++ term` (term = nothing, LF or CR LF). On every line without exotic white space
+whose emails are not padded, whose commit email is not empty and which carries nothing after the
+last `<email>` (`lineOk`, decidable), gitoxide yields exactly the mapping git adds; lines gitoxide
+skips or reports as errors add no mapping (or one without effect, `<email>` alone) in git. -/
+theorem parse_eq_git (l term : Bytes) (hterm : isTerm term) (hok : lineOk l = true) :
+    gixEff l = gitEff (l ++ term) :=
+  line_eq l term hterm hok
+
+-- non-vacuity: `Joe R <joe@x> Joe <bugs@x>` is in the domain and yields the by-name mapping
+example : lineOk [74, 111, 101, 32, 82, 32, 60, 106, 111, 101, 64, 120, 62, 32, 74, 111, 101, 32, 60, 98, 117, 103, 115, 64, 120, 62] = true := by
+  decide
+example : gixEff [74, 111, 101, 32, 82, 32, 60, 106, 111, 101, 64, 120, 62, 32, 74, 111, 101, 32, 60, 98, 117, 103, 115, 64, 120, 62] =
+    some ⟨some [74, 111, 101, 32, 82], some [106, 111, 101, 64, 120], some [74, 111, 101], [98, 117, 103, 115, 64, 120]⟩ := by
+  decide
+
+/-- known finding `deviation:trailing-text`: `Proper <c@x> trailing` is an error for gitoxide,
+git maps `c@x` to the name `Proper`. -/
+theorem parse_differs_trailing_text :
+    lineResult [80, 114, 111, 112, 101, 114, 32, 60, 99, 64, 120, 62, 32, 116, 114, 97, 105, 108, 105, 110, 103] = .err ∧
+    gitEff [80, 114, 111, 112, 101, 114, 32, 60, 99, 64, 120, 62, 32, 116, 114, 97, 105, 108, 105, 110, 103, 10] =
+      some ⟨some [80, 114, 111, 112, 101, 114], none, none, [99, 64, 120]⟩ := by
+  decide
+
+/-- known finding `deviation:email-surrounding-whitespace`: `Proper < c@x >` -/
+theorem parse_differs_email_whitespace :
+    gixEff [80, 114, 111, 112, 101, 114, 32, 60, 32, 99, 64, 120, 32, 62] =
+      some ⟨some [80, 114, 111, 112, 101, 114], none, none, [99, 64, 120]⟩ ∧
+    gitEff [80, 114, 111, 112, 101, 114, 32, 60, 32, 99, 64, 120, 32, 62, 10] =
+      some ⟨some [80, 114, 111, 112, 101, 114], none, none, [32, 99, 64, 120, 32]⟩ := by
+  decide
+
+/-- known finding `deviation:empty-commit-email`: `Proper <p@x> <>` -/
+theorem parse_differs_empty_commit_email :
+    lineResult [80, 114, 111, 112, 101, 114, 32, 60, 112, 64, 120, 62, 32, 60, 62] = .err ∧
+    gitEff [80, 114, 111, 112, 101, 114, 32, 60, 112, 64, 120, 62, 32, 60, 62, 10] =
+      some ⟨some [80, 114, 111, 112, 101, 114], some [112, 64, 120], none, []⟩ := by
+  decide
+
+/-- known finding `deviation:unicode-whitespace`: `\x0bProper <c@x>` -/
+theorem parse_differs_unicode_whitespace :
+    gixEff [11, 80, 114, 111, 112, 101, 114, 32, 60, 99, 64, 120, 62] =
+      some ⟨some [80, 114, 111, 112, 101, 114], none, none, [99, 64, 120]⟩ ∧
+    gitEff [11, 80, 114, 111, 112, 101, 114, 32, 60, 99, 64, 120, 62, 10] =
+      some ⟨some [11, 80, 114, 111, 112, 101, 114], none, none, [99, 64, 120]⟩ := by
+  decide
+
+/-- Whole files: if every physical line is in the domain of `parse_eq_git` (`fileOk`), all keys
+gitoxide parsed are valid UTF-8 and the looked-up email is spelled as in the mailmap, then
+`Snapshot::from_bytes(file).resolve(name, email)` does not panic and is what
+`git -c mailmap.file=file check-mailmap "name <email>"` prints (`Spec.checkMailmap`). -/
+theorem file_eq_git_partial (file name email : Bytes) (hok : fileOk file = true)
+    (hes : ∀ e ∈ fileEntries file, entryOk e = true)
+    (hsp : spellingExact (build (fileEntries file)) email = true) :
+    resolveFile file name email = some (checkMailmap file name email) := by
+  obtain ⟨s, hs, hr⟩ := resolve_eq_git_partial (fileEntries file) hes name email hsp
+  unfold resolveFile
+  rw [hs, Option.map_some, hr]
+  unfold checkMailmap Spec.C53.readMailmap
+  rw [fileEntries_eq file hok, ← mapUser_filter_noop]
+
+-- non-vacuity: comment, CRLF line, email-by-email, blank line, by-name mapping, `<email>` alone
+-- (error in gitoxide, no effect in git), a line without email, no final newline
+example : fileOk [35, 32, 99, 111, 109, 109, 101, 110, 116, 10, 74, 111, 101, 32, 82, 32, 60, 106, 111, 101, 64, 120, 62, 13, 10, 60, 110, 101, 119, 64, 120, 62, 32, 60, 111, 108, 100, 64, 120, 62, 10, 10, 80, 32, 60, 112, 64, 120, 62, 32, 79, 108, 100, 32, 60, 99, 64, 120, 62, 10, 60, 111, 110, 108, 121, 64, 120, 62, 10, 110, 111, 32, 101, 109, 97, 105, 108, 32, 104, 101, 114, 101] = true := by
+  decide
+example : (fileEntries [35, 32, 99, 111, 109, 109, 101, 110, 116, 10, 74, 111, 101, 32, 82, 32, 60, 106, 111, 101, 64, 120, 62, 13, 10, 60, 110, 101, 119, 64, 120, 62, 32, 60, 111, 108, 100, 64, 120, 62, 10, 10, 80, 32, 60, 112, 64, 120, 62, 32, 79, 108, 100, 32, 60, 99, 64, 120, 62, 10, 60, 111, 110, 108, 121, 64, 120, 62, 10, 110, 111, 32, 101, 109, 97, 105, 108, 32, 104, 101, 114, 101]).length = 3 := by
   decide
 
 end GixModel.Props.C53
